@@ -276,7 +276,9 @@ def _symbolic_for(interp, s, frame, state, space, promoted=None):
         if s.orelse:
             interp.exec_body_single(s.orelse, frame)
         return
-    written = interp.loop_hints.get(key)
+    written = interp.loop_hints.get(key) or interp.loop_hints.get((frame.fname, "for", ast.unparse(s.iter)))
+    if written is None and getattr(item_fn, "guard", None) is not None:
+        written = interp.loop_hints.get((frame.fname, "for", "<mask-selection>"))
     if written is not None:
         return written(interp, s, frame, st, lo, hi, item_fn)
     rule = interp.loop_hints.get((frame.fname, "for", "*"))
@@ -284,6 +286,8 @@ def _symbolic_for(interp, s, frame, state, space, promoted=None):
         # a rule offered for every symbolic loop of the function; it declines with NotImplemented
         if rule(interp, s, frame, st, lo, hi, item_fn) is not NotImplemented:
             return None
+    if getattr(item_fn, "guard", None) is not None:
+        raise EngineError("loop over a boolean-mask selection needs a written summary (guarded iteration space)")
     side_mark = len(st.side)
     modified = sorted(_assigned_names(s.body) | _assigned_names([ast.Assign(targets=[s.target], value=ast.Constant(0))]))
     target_names = _assigned_names([ast.Assign(targets=[s.target], value=ast.Constant(0))])
@@ -491,7 +495,8 @@ def _symbolic_for(interp, s, frame, state, space, promoted=None):
             for g in _eq_goals(a, b):
                 goals.append(z3.Implies(z3.And(*rng) if rng else z3.BoolVal(True), g))
         else:
-            goals.extend(_cell_eq_goals(st2.heap[sid], heap_n[sid]))
+            with use_state(st2):
+                goals.extend(_cell_eq_goals(st2.heap[sid], heap_n[sid]))
     assum = st2.all_assumptions()
     import os
     if os.environ.get("PYVC_DEBUG_LOOPS"):
@@ -646,7 +651,21 @@ def _eq_goals(a, b):
     if isinstance(a, A.Arr) and isinstance(b, A.Arr):
         if a.sid == b.sid:
             return []
-        return [z3.BoolVal(False)]
+        # two different cells: equal as values iff same shape and same content at an arbitrary index
+        try:
+            sa, sb = a.shape, b.shape
+        except KeyError:
+            return [z3.BoolVal(False)]
+        if len(sa) != len(sb):
+            return [z3.BoolVal(False)]
+        goals = []
+        for x, y in zip(sa, sb):
+            goals.extend(_eq_goals(x, y))
+        idx = tuple(sv.fresh_int("e") for _ in sa)
+        rng = [sv.zb(sv.and_(sv.cmp(">=", x, 0), sv.cmp("<", x, d))) for x, d in zip(idx, sa)]
+        for g in _eq_goals(a.get(idx), b.get(idx)):
+            goals.append(z3.Implies(z3.And(*rng) if rng else z3.BoolVal(True), g))
+        return goals
     if a is b:
         return []
     if isinstance(a, Ref) and isinstance(b, Ref) and a.sid == b.sid:
@@ -697,7 +716,9 @@ def _summarise_array(sid, shape, dt, idx, prev, postv, iz, lo, hi, hv_consts, hv
     opts (Unit.loop_opts): "cond_acc": "sigma-ite" -> a conditional accumulation A[g] += d(i) at a loop-invariant position g
     gets the closed form pre + Σ_t ite(idx == g, d(t), 0) (the Σ-nesting then mirrors the loop nest at every level) instead
     of the default ite(idx == g, pre + Σ_t d(t), pre) (which later stores into the same array can be decomposed against).
-    Both forms are checked by the same loop-init / loop-step obligations."""
+    "cond_acc": "scatter-first" -> a store chain with a solvable writer iteration (rule 4) is preferred to the conditional
+    accumulation (2a): every element is written by one iteration, the content is ite(writer in range, value, pre).
+    All forms are checked by the same loop-init / loop-step obligations."""
     sigma_ite = (opts or {}).get("cond_acc") == "sigma-ite"
     pre_fn = pre_heap[sid].data
     meta = pre_heap[sid].meta
@@ -714,6 +735,58 @@ def _summarise_array(sid, shape, dt, idx, prev, postv, iz, lo, hi, hv_consts, hv
                 return sv.add(pre_fn(ix), Sum(lo, k, lambda t: _subst_val(delta, pairs + [(iz, sv.znum(t))])))
             return Content("arr", A._memo(fn), meta)
         return at
+    def _chain_rule():
+        # (4) chain of scatter stores with a common writer iteration (read-modify-write of the same element allowed)
+        #     (the same writer iteration w(idx) for all stores of the chain).  A stored value may read the previous content
+        #     of the *same* element (a[g(i)] op= e(i)): each element is written by the single iteration w(idx), so the
+        #     previous content is the content before the loop.
+        chain = _decompose_chain(postv, prev)
+        if chain:
+            parts = []
+            w0 = None
+            for cond, val in chain:
+                val, marker = _abstract_prev(val, cond, idz, hv_funcs)
+                vts = _terms_of(val) + [cond]
+                if any(_contains_any(t, hv_consts, hv_funcs) for t in vts):
+                    parts = None
+                    break
+                sol = _solve_writer(cond, iz, idz)
+                if sol is None:
+                    parts = None
+                    break
+                w, residual = sol
+                if w0 is None:
+                    w0 = w
+                elif not z3.simplify(w - w0).eq(z3.IntVal(0)):
+                    parts = None
+                    break
+                parts.append((residual, val, marker))
+            if parts:
+                w = w0
+
+                def at(k):
+                    def fn(ix, k=k):
+                        pairs = [(a, sv.znum(b)) for a, b in zip(idz, ix)]
+                        wk = z3.simplify(z3.substitute(w, *pairs))
+                        inr = z3.And(wk >= sv.znum(lo), wk < sv.znum(k))
+
+                        def build(j):
+                            if j == len(parts):
+                                return pre_fn(ix)
+                            residual, val, marker = parts[j]
+                            c = z3.And(inr, z3.substitute(residual, *pairs))
+                            v = _subst_val(_subst_val(val, [(iz, w)]), pairs)
+                            if marker is not None:
+                                v = _subst_prev(v, marker, pre_fn(ix))
+                            return ite(sv.wrap(z3.simplify(c)), v, lambda: build(j + 1))
+                        return build(0)
+                    return Content("arr", A._memo(fn), meta)
+                return at
+        return None
+    if (opts or {}).get("cond_acc") == "scatter-first":
+        at4 = _chain_rule()
+        if at4 is not None:
+            return at4
     # (2) conditional effects: post = ite(cond(i, idx), x(i, idx), prev)
     dec = _decompose_store(_subst_val(postv, []), prev)
     if dec is not None:
@@ -810,10 +883,82 @@ def _summarise_array(sid, shape, dt, idx, prev, postv, iz, lo, hi, hv_consts, hv
                 return sv.add(pre_fn(ix), Sum(lo, k, lambda t: _subst_val(delta, pairs + [(iz, sv.znum(t))])))
             return Content("arr", A._memo(fn), meta)
         return at
+    at4 = _chain_rule()
+    if at4 is not None:
+        return at4
     import os
     if os.environ.get("PYVC_DEBUG_LOOPS"):
         print("LOOP-DEBUG post:", _subst_val(postv, []), "\n  prev:", prev, "\n  iz:", iz)
     raise EngineError(f"array #{sid}: loop effect is neither an accumulation nor an affine scatter store — needs a written summary")
+
+
+def _decompose_chain(postv, prev):
+    """post == If(c1, v1, If(c2, v2, ... prev)) (real-valued) -> [(c1, v1), (c2, v2), ...]; None if not of that form"""
+    postv, prev = norm(postv), norm(prev)
+    if isinstance(postv, Cx) or isinstance(prev, Cx):
+        one = _decompose_store(postv, prev)
+        return [one] if one is not None else None
+    if not isinstance(postv, SV) or not isinstance(prev, SV):
+        return None
+    out = []
+    t = postv.t
+    for _ in range(64):
+        if t.eq(prev.t):
+            return out or None
+        if z3.is_app(t) and t.decl().kind() == z3.Z3_OP_ITE:
+            c, x, y = t.children()
+            if x.eq(prev.t) and not y.eq(prev.t):
+                out.append((z3.Not(c), sv.wrap(y)))
+                return out
+            out.append((c, sv.wrap(x)))
+            t = y
+            continue
+        return None
+    return None
+
+
+def _abstract_prev(val, cond, idz, hv_funcs):
+    """occurrences of the havocked array content H(args) inside a stored value with args == idx under the store
+    condition are replaced by a marker constant (the element's own previous content)"""
+    val = norm(val)
+    if not isinstance(val, SV):
+        return val, None
+    found = []
+    seen = set()
+    stack = [val.t]
+    while stack:
+        e = stack.pop()
+        if e.get_id() in seen:
+            continue
+        seen.add(e.get_id())
+        if z3.is_app(e):
+            d = e.decl()
+            if d.kind() == z3.Z3_OP_UNINTERPRETED and d.arity() == len(idz) and d.arity() > 0 and d.name() in hv_funcs:
+                found.append(e)
+            stack.extend(e.children())
+    if not found:
+        return val, None
+    marker = z3.Const(sv.fresh_name("PREV"), found[0].sort())
+    pairs = []
+    for e in found:
+        s_ = z3.Solver()
+        s_.set("timeout", 2000)
+        s_.add(cond)
+        s_.add(z3.Or(*[a != b for a, b in zip(e.children(), idz)]))
+        if s_.check() != z3.unsat:
+            return val, None
+        pairs.append((e, marker))
+    return sv.wrap(z3.substitute(val.t, *pairs)), marker
+
+
+def _subst_prev(v, marker, pre_val):
+    v, pre_val = norm(v), norm(pre_val)
+    if not isinstance(v, SV):
+        return v
+    pv = sv.zr(pre_val) if z3.is_real(marker) else sv.znum(pre_val)
+    if pv.sort() != marker.sort():
+        raise EngineError("read-modify-write scatter: sort of the previous content")
+    return sv.wrap(z3.simplify(z3.substitute(v.t, (marker, pv))))
 
 
 def _replace_own_havoc(val, prev, pre_fn):
@@ -1092,6 +1237,24 @@ def _summarise_cell(interp, sid, pre_cell, heap_h, st1, iz, lo, hi, hv_consts, h
                         if k0 == 0:
                             return v
                         return ite(sv.cmp("<", p, k0), lambda: A._pick([norm(x) for x in pre], p), v)
+                    return Content("list", A.SeqVal(length, fn), pre_cell.meta)
+                return at
+            if tuple(post[:k0]) == tuple(pre) and len(added) == 1 and isinstance(added[0], A.Arr) and added[0].view is None \
+                    and added[0].sid not in heap_h and k0 == 0:
+                # one array allocated by the iteration is appended per iteration (map loop): element p of the list after
+                # k iterations is that array with the loop index instantiated at lo + p
+                arr0 = added[0]
+                c0 = st1.heap[arr0.sid]
+                probe_idx = tuple(sv.fresh_int("q") for _ in c0.meta["shape"])
+                pts = _terms_of(c0.data(probe_idx)) + [t for dd in c0.meta["shape"] for t in _terms_of(dd)]
+                if any(_contains_any(t, hv_consts, hv_funcs) for t in pts):
+                    raise EngineError("appended array depends on loop-carried state")
+
+                def at(k, arr0=arr0):
+                    length = A.simp(sv.sub(k, lo))
+
+                    def fn(p):
+                        return _rebind_obj(arr0, st1, cur(), iz, sv.znum(A.simp(sv.add(lo, p))))
                     return Content("list", A.SeqVal(length, fn), pre_cell.meta)
                 return at
         raise EngineError("list mutated in a symbolic loop in an unsupported way")
